@@ -66,106 +66,121 @@ theorem dispatch_frame (s : St) :
 
 /-! ### runOnce -/
 
+theorem afterCheck_dequeued (o : LoopOut) (r : Int) (dq : List Ev) : (o.afterCheck r dq).dequeued = o.dequeued ++ dq := by
+  unfold LoopOut.afterCheck; split <;> rfl
+
+theorem afterCheck_fired (o : LoopOut) (r : Int) (dq : List Ev) : (o.afterCheck r dq).fired = o.fired := by
+  unfold LoopOut.afterCheck; split <;> rfl
+
 /-- One pass of the runOnce loop in terms of the lists. -/
+theorem loopPass_spec (s : St) (o : LoopOut) :
+    (checkEvents s).2.2 ++ (loopPass s o).1.tasks = s.tasks ∧
+    (loopPass s o).1.queue = [] ∧
+    ((loopPass s o).2.1 = false → s.queue = [] ∧ (checkEvents s).2.2 = []) ∧
+    (loopPass s o).2.2.dequeued = o.dequeued ++ (checkEvents s).2.2 ∧
+    (loopPass s o).2.2.fired = o.fired ++ (s.queue ++ (checkEvents s).2.2).filter (canDial s.invalid) ∧
+    (loopPass s o).1.now = s.now ∧ (loopPass s o).1.invalid = s.invalid ∧ (loopPass s o).1.nextId = s.nextId := by
+  have hpre := checkEvents_prefix s
+  have hq := checkEvents_queue s
+  have hfr := checkEvents_frame s
+  refine ⟨hpre, rfl, ?_, ?_, ?_, hfr.1, hfr.2.1, hfr.2.2⟩
+  · intro h
+    have h' : (!(checkEvents s).1.queue.isEmpty) = false := h
+    rw [hq] at h'
+    cases hs : s.queue with
+    | nil =>
+      rw [hs] at h'
+      cases hd : (checkEvents s).2.2 with
+      | nil => exact ⟨rfl, rfl⟩
+      | cons a b => rw [hd] at h'; simp at h'
+    | cons a b => rw [hs] at h'; simp at h'
+  · show ((o.afterCheck _ _).afterDispatch _ _).dequeued = _
+    simp only [LoopOut.afterDispatch, afterCheck_dequeued]
+  · show ((o.afterCheck _ _).afterDispatch _ _).fired = _
+    simp only [LoopOut.afterDispatch, afterCheck_fired, dispatch]
+    rw [hq, hfr.2.1]
+
 theorem loopBody_spec (fuel : Nat) (s : St) (o : LoopOut) :
-    let r := loopBody fuel s o
-    (∃ dq, r.2.dequeued = o.dequeued ++ dq ∧ dq ++ r.1.tasks = s.tasks ∧
-      (fuel ≠ 0 → r.2.fired = o.fired ++ (s.queue ++ dq).filter (canDial s.invalid)) ∧
+    (∃ dq, (loopBody fuel s o).2.dequeued = o.dequeued ++ dq ∧ dq ++ (loopBody fuel s o).1.tasks = s.tasks ∧
+      (fuel ≠ 0 → (loopBody fuel s o).2.fired = o.fired ++ (s.queue ++ dq).filter (canDial s.invalid)) ∧
       (∀ e ∈ dq, e.when ≤ s.now)) ∧
-    r.1.now = s.now ∧ r.1.invalid = s.invalid ∧ r.1.nextId = s.nextId ∧
-    (s.tasks.length + 1 + (if s.queue = [] then 0 else 1) ≤ fuel → timeRemaining r.1 ≠ 0 ∧ r.1.queue = []) := by
+    (loopBody fuel s o).1.now = s.now ∧ (loopBody fuel s o).1.invalid = s.invalid ∧
+    (loopBody fuel s o).1.nextId = s.nextId ∧
+    (s.tasks.length + 1 + (if s.queue = [] then 0 else 1) ≤ fuel →
+      timeRemaining (loopBody fuel s o).1 ≠ 0 ∧ (loopBody fuel s o).1.queue = []) := by
   induction fuel generalizing s o with
   | zero =>
-    simp only [loopBody]
-    refine ⟨⟨[], by simp, by simp, by simp, by simp⟩, rfl, rfl, rfl, ?_⟩
+    refine ⟨⟨[], by simp [loopBody], by simp [loopBody], by simp, by simp⟩, rfl, rfl, rfl, ?_⟩
     intro h; omega
   | succ fuel ih =>
-    have hpre := checkEvents_prefix s
-    have hq := checkEvents_queue s
-    have hfr := checkEvents_frame s
+    obtain ⟨p1, p2, p3, p4, p5, p6, p7, p8⟩ := loopPass_spec s o
     have hdue := checkEvents_due s
-    simp only [loopBody]
-    generalize hce : checkEvents s = ce at hpre hq hfr hdue
-    obtain ⟨s1, r, dq⟩ := ce
-    simp only at hpre hq hfr hdue
-    simp only [dispatch]
+    have hstep : loopBody (fuel + 1) s o =
+        if (loopPass s o).2.1 then loopBody fuel (loopPass s o).1 (loopPass s o).2.2
+        else ((loopPass s o).1, (loopPass s o).2.2) := rfl
+    rw [hstep]
+    have hlen := congrArg List.length p1
+    simp only [List.length_append] at hlen
     split
-    · -- made: the queue was not empty, go round again
+    · -- sawActivity: go round again
       rename_i hmade
-      generalize ho2 : ({ (if r < 0 then { o with dequeued := o.dequeued ++ dq }
-          else { o with result := false, delay := if r < o.delay then r else o.delay, dequeued := o.dequeued ++ dq } : LoopOut) with
-          fired := (if r < 0 then { o with dequeued := o.dequeued ++ dq }
-            else { o with result := false, delay := if r < o.delay then r else o.delay, dequeued := o.dequeued ++ dq } : LoopOut).fired
-              ++ s1.queue.filter (canDial s1.invalid),
-          result := if (!s1.queue.isEmpty) = true then false else (if r < 0 then { o with dequeued := o.dequeued ++ dq }
-            else { o with result := false, delay := if r < o.delay then r else o.delay, dequeued := o.dequeued ++ dq } : LoopOut).result } : LoopOut) = o2
-      have ho2d : o2.dequeued = o.dequeued ++ dq := by rw [← ho2]; split <;> rfl
-      have ho2f : o2.fired = o.fired ++ s1.queue.filter (canDial s1.invalid) := by rw [← ho2]; split <;> rfl
-      have := ih { s1 with queue := [] } o2
-      simp only at this
-      obtain ⟨⟨dq', h1, h2, h3, h4⟩, h5, h6, h7, h8⟩ := this
-      refine ⟨⟨dq ++ dq', ?_, ?_, ?_, ?_⟩, ?_, ?_, ?_, ?_⟩
-      · rw [h1, ho2d, List.append_assoc]
-      · rw [List.append_assoc, h2]; exact hpre
+      obtain ⟨⟨dq', h1, h2, h3, h4⟩, h5, h6, h7, h8⟩ := ih (loopPass s o).1 (loopPass s o).2.2
+      refine ⟨⟨(checkEvents s).2.2 ++ dq', ?_, ?_, ?_, ?_⟩, ?_, ?_, ?_, ?_⟩
+      · rw [h1, p4, List.append_assoc]
+      · rw [List.append_assoc, h2]; exact p1
       · intro _
         by_cases hf : fuel = 0
         · subst hf
-          simp only [loopBody] at h2 ⊢
-          have : dq' = [] := by
-            have := congrArg List.length h2
-            simp only [List.length_append] at this
+          have hd' : dq' = [] := by
+            have hl := congrArg List.length h2
+            simp only [loopBody, List.length_append] at hl
             exact List.eq_nil_of_length_eq_zero (by omega)
-          subst this
-          rw [ho2f, hq, hfr.2.1]; simp
-        · rw [h3 hf, ho2f, hq, hfr.2.1]
-          simp [List.filter_append, List.append_assoc]
+          subst hd'
+          simp only [loopBody, List.append_nil]
+          exact p5
+        · rw [h3 hf, p5, p2, p7]
+          simp only [List.nil_append, List.filter_append, List.append_assoc]
       · intro e he
         rcases List.mem_append.mp he with he | he
         · exact hdue e he
-        · have := h4 e he; rw [hfr.1] at this; exact this
-      · rw [h5]; exact hfr.1
-      · rw [h6]; exact hfr.2.1
-      · rw [h7]; exact hfr.2.2
+        · have := h4 e he; rw [p6] at this; exact this
+      · rw [h5]; exact p6
+      · rw [h6]; exact p7
+      · rw [h7]; exact p8
       · intro hfuel
         apply h8
+        rw [p2]
         simp only [↓reduceIte]
-        have hlen := congrArg List.length hpre
-        simp only [List.length_append] at hlen
-        by_cases hdq : dq = []
-        · subst hdq
-          have hsq : s.queue ≠ [] := by
+        by_cases hdq : (checkEvents s).2.2 = []
+        · have hsq : s.queue ≠ [] := by
             intro h
-            rw [hq, h] at hmade
+            have : (loopPass s o).2.1 = (!(checkEvents s).1.queue.isEmpty) := rfl
+            rw [this, checkEvents_queue, h, hdq] at hmade
             simp at hmade
           simp only [hsq, ↓reduceIte] at hfuel
+          rw [hdq] at hlen
           simp only [List.length_nil] at hlen
           omega
-        · have : 0 < dq.length := List.length_pos_iff.mpr hdq
+        · have : 0 < (checkEvents s).2.2.length := List.length_pos_iff.mpr hdq
           split at hfuel <;> omega
     · -- nothing was queued: the loop ends
       rename_i hmade
-      have hs1q : s1.queue = [] := by
-        cases hc : s1.queue with
-        | nil => rfl
-        | cons a b => rw [hc] at hmade; simp at hmade
-      have hsq : s.queue = [] ∧ dq = [] := by
-        rw [hq] at hs1q
-        exact List.append_eq_nil_iff.mp hs1q
-      obtain ⟨hsq, hdq⟩ := hsq
-      subst hdq
-      refine ⟨⟨[], ?_, ?_, ?_, by simp⟩, hfr.1, hfr.2.1, hfr.2.2, ?_⟩
-      · split <;> simp
-      · simpa using hpre
+      have hmade' : (loopPass s o).2.1 = false := by
+        cases h : (loopPass s o).2.1 with
+        | false => rfl
+        | true => exact absurd h hmade
+      obtain ⟨hsq, hdq⟩ := p3 hmade'
+      refine ⟨⟨[], ?_, ?_, ?_, by simp⟩, p6, p7, p8, ?_⟩
+      · rw [p4, hdq]
+      · rw [hdq] at p1; simpa using p1
       · intro _
-        rw [hs1q, hsq]
-        split <;> simp
+        rw [p5, hdq]
       · intro _
-        refine ⟨?_, rfl⟩
-        have hnone := checkEvents_none s (by rw [hce])
-        have : s1.tasks = s.tasks := by simpa using hpre
+        refine ⟨?_, p2⟩
+        have hnone := checkEvents_none s hdq
+        have ht : (loopPass s o).1.tasks = s.tasks := by rw [hdq] at p1; simpa using p1
         unfold timeRemaining at hnone ⊢
-        simp only
-        rw [this, hfr.1]; exact hnone
+        rw [ht, p6]; exact hnone
 
 theorem runOnce_spec (s : St) :
     (runOnce s).2.dequeued ++ (runOnce s).1.tasks = s.tasks ∧
@@ -192,9 +207,9 @@ structure Inv (s : St) : Prop where
   /-- an id names one event, whether still scheduled or already queued as a call -/
   nodup : ((s.tasks ++ s.queue).map (·.id)).Nodup
 
-theorem Inv.init : Inv init := ⟨by simp [SquidModel.Event.init], by simp [SquidModel.Event.init], by simp [SquidModel.Event.init]⟩
+theorem inv_init : Inv init := ⟨by simp [SquidModel.Event.init], by simp [SquidModel.Event.init], by simp [SquidModel.Event.init]⟩
 
-theorem Inv.schedule {s : St} (h : Inv s) (f a : Nat) (d w : Int) (c : Bool) : Inv (schedule s f a d w c) := by
+theorem inv_schedule {s : St} (h : Inv s) (f a : Nat) (d w : Int) (c : Bool) : Inv (schedule s f a d w c) := by
   have hfr : ∀ x ∈ s.tasks, x.id < s.nextId := fun x hx => h.fresh x (List.mem_append_left _ hx)
   refine ⟨insert_sorted _ _ h.sorted hfr, ?_, ?_⟩
   · intro e he
@@ -216,7 +231,7 @@ theorem Inv.schedule {s : St} (h : Inv s) (f a : Nat) (d w : Int) (c : Bool) : I
     simp only at hxid
     omega
 
-theorem Inv.tasks_sub {s : St} (h : Inv s) {t : List Ev} (ht : t.Sublist s.tasks) : Inv { s with tasks := t } := by
+theorem inv_tasks_sub {s : St} (h : Inv s) {t : List Ev} (ht : t.Sublist s.tasks) : Inv { s with tasks := t } := by
   refine ⟨h.sorted.sublist ht, ?_, ?_⟩
   · intro e he
     rcases List.mem_append.mp he with he | he
@@ -224,10 +239,10 @@ theorem Inv.tasks_sub {s : St} (h : Inv s) {t : List Ev} (ht : t.Sublist s.tasks
     · exact h.fresh e (List.mem_append_right _ he)
   · exact ((ht.append_right s.queue).map (·.id)).nodup h.nodup
 
-theorem Inv.cancelWith {s : St} (h : Inv s) (skip : Bool) (f a : Nat) : Inv (cancelWith skip s f a).1 :=
-  h.tasks_sub (cancelLoop_sublist skip f a false s.tasks)
+theorem inv_cancelWith {s : St} (h : Inv s) (skip : Bool) (f a : Nat) : Inv (cancelWith skip s f a).1 :=
+  inv_tasks_sub h (cancelLoop_sublist skip f a false s.tasks)
 
-theorem Inv.checkEvents {s : St} (h : Inv s) : Inv (checkEvents s).1 := by
+theorem inv_checkEvents {s : St} (h : Inv s) : Inv (checkEvents s).1 := by
   have hpre := checkEvents_prefix s
   have hq := checkEvents_queue s
   have hfr := checkEvents_frame s
@@ -248,7 +263,7 @@ theorem Inv.checkEvents {s : St} (h : Inv s) : Inv (checkEvents s).1 := by
     exact h.fresh e (hperm.mem_iff.mp he)
   · exact ((hperm.map (·.id)).nodup_iff).mpr h.nodup
 
-theorem Inv.dispatch {s : St} (h : Inv s) : Inv (dispatch s).1 := by
+theorem inv_dispatch {s : St} (h : Inv s) : Inv (dispatch s).1 := by
   refine ⟨h.sorted, ?_, ?_⟩
   · intro e he
     simp only [dispatch, List.append_nil] at he
@@ -258,7 +273,7 @@ theorem Inv.dispatch {s : St} (h : Inv s) : Inv (dispatch s).1 := by
       (List.sublist_append_left s.tasks s.queue).map _
     exact this.nodup h.nodup
 
-theorem Inv.runOnce {s : St} (h : Inv s) : Inv (runOnce s).1 := by
+theorem inv_runOnce {s : St} (h : Inv s) : Inv (runOnce s).1 := by
   obtain ⟨h1, _, _, _, _, h6, _, h8⟩ := runOnce_spec s
   have hsub : (runOnce s).1.tasks.Sublist s.tasks := by
     rw [← h1]; exact List.sublist_append_right _ _
@@ -272,14 +287,14 @@ theorem Inv.runOnce {s : St} (h : Inv s) : Inv (runOnce s).1 := by
       (hsub.trans (List.sublist_append_left s.tasks s.queue)).map _
     exact this.nodup h.nodup
 
-theorem Inv.step {s : St} (h : Inv s) (op : Op) : Inv (step s op).1 := by
+theorem inv_step {s : St} (h : Inv s) (op : Op) : Inv (step s op).1 := by
   cases op with
   | clock d => exact ⟨h.sorted, h.fresh, h.nodup⟩
-  | sched f a d w c => exact h.schedule f a d w c
-  | cancel f a => exact h.cancelWith _ f a
-  | check => exact h.checkEvents
-  | dispatch => exact h.dispatch
-  | loop => exact h.runOnce
+  | sched f a d w c => exact inv_schedule h f a d w c
+  | cancel f a => exact inv_cancelWith h _ f a
+  | check => exact inv_checkEvents h
+  | dispatch => exact inv_dispatch h
+  | loop => exact inv_runOnce h
   | remaining => exact h
   | find f a => exact h
   | invalidate a =>
@@ -289,19 +304,19 @@ theorem Inv.step {s : St} (h : Inv s) (op : Op) : Inv (step s op).1 := by
     · exact ⟨h.sorted, h.fresh, h.nodup⟩
   | pending => exact h
 
-theorem Inv.exec {s : St} (h : Inv s) (ops : List Op) : Inv (exec s ops) := by
+theorem inv_exec {s : St} (h : Inv s) (ops : List Op) : Inv (exec s ops) := by
   induction ops generalizing s with
   | nil => exact h
-  | cons op ops ih => exact ih (h.step op)
+  | cons op ops ih => exact ih (inv_step h op)
 
 /-- States the scheduler can be in: after any history from the empty scheduler. -/
 def Reachable (s : St) : Prop := ∃ ops, s = exec init ops
 
-theorem Reachable.inv {s : St} (h : Reachable s) : Inv s := by
+theorem reachable_inv {s : St} (h : Reachable s) : Inv s := by
   obtain ⟨ops, rfl⟩ := h
-  exact Inv.init.exec ops
+  exact inv_exec inv_init ops
 
-theorem Reachable.step {s : St} (h : Reachable s) (op : Op) : Reachable (step s op).1 := by
+theorem reachable_step {s : St} (h : Reachable s) (op : Op) : Reachable (step s op).1 := by
   obtain ⟨ops, rfl⟩ := h
   refine ⟨ops ++ [op], ?_⟩
   have : ∀ (s : St) (ops : List Op), exec s (ops ++ [op]) = (step (exec s ops) op).1 := by
@@ -317,12 +332,15 @@ theorem eq_of_id_eq {l : List Ev} (hn : (l.map (·.id)).Nodup) {x y : Ev} (hx : 
   induction l with
   | nil => cases hx
   | cons z zs ih =>
-    simp only [List.map_cons, List.nodup_cons] at hn
-    rcases List.mem_cons.mp hx with rfl | hx <;> rcases List.mem_cons.mp hy with rfl | hy
-    · rfl
-    · exact absurd (List.mem_map.mpr ⟨y, hy, hid.symm⟩) hn.1
-    · exact absurd (List.mem_map.mpr ⟨x, hx, hid⟩) hn.1
-    · exact ih hn.2 hx hy
+    rw [List.map_cons, List.nodup_cons] at hn
+    have hz : ∀ w ∈ zs, w.id ≠ z.id := fun w hw h => hn.1 (List.mem_map.mpr ⟨w, hw, h⟩)
+    rcases List.mem_cons.mp hx with hxz | hxs
+    · rcases List.mem_cons.mp hy with hyz | hys
+      · rw [hxz, hyz]
+      · exact absurd (by rw [← hid, hxz]) (hz y hys)
+    · rcases List.mem_cons.mp hy with hyz | hys
+      · exact absurd (by rw [hid, hyz]) (hz x hxs)
+      · exact ih hn.2 hxs hys
 
 /-! ### what a later history can dequeue or fire -/
 
@@ -351,16 +369,16 @@ theorem step_origin (s : St) (op : Op) :
     (∀ x ∈ (step s op).2.dequeued, x ∈ s.tasks) ∧
     (∀ x ∈ (step s op).2.fired, x ∈ s.tasks ∨ x ∈ s.queue) := by
   cases op with
-  | clock d => exact ⟨Nat.le_refl _, fun x hx => Or.inl hx, fun x hx => Or.inr hx, fun x hx => by cases hx, fun x hx => by cases hx⟩
+  | clock d => exact ⟨Nat.le_refl _, fun x hx => Or.inl hx, fun x hx => Or.inr hx, fun x hx => absurd hx List.not_mem_nil, fun x hx => absurd hx List.not_mem_nil⟩
   | sched f a d w c =>
-    refine ⟨by simp [step, schedule], ?_, fun x hx => Or.inr hx, fun x hx => by cases hx, fun x hx => by cases hx⟩
+    refine ⟨by simp [step, schedule], ?_, fun x hx => Or.inr hx, fun x hx => absurd hx List.not_mem_nil, fun x hx => absurd hx List.not_mem_nil⟩
     intro x hx
     simp only [step, schedule] at hx
     rcases mem_insert.mp hx with rfl | hx
     · right; simp
     · left; exact hx
   | cancel f a =>
-    refine ⟨Nat.le_refl _, ?_, fun x hx => Or.inr hx, fun x hx => by cases hx, fun x hx => by cases hx⟩
+    refine ⟨Nat.le_refl _, ?_, fun x hx => Or.inr hx, fun x hx => absurd hx List.not_mem_nil, fun x hx => absurd hx List.not_mem_nil⟩
     intro x hx
     left
     exact (cancelLoop_sublist _ f a false s.tasks).subset hx
@@ -368,7 +386,7 @@ theorem step_origin (s : St) (op : Op) :
     have hpre := checkEvents_prefix s
     have hq := checkEvents_queue s
     have hfr := checkEvents_frame s
-    refine ⟨by simp only [step]; omega, ?_, ?_, ?_, fun x hx => by cases hx⟩
+    refine ⟨by simp only [step]; omega, ?_, ?_, ?_, fun x hx => absurd hx List.not_mem_nil⟩
     · intro x hx; left; simp only [step] at hx; rw [← hpre]; exact List.mem_append_right _ hx
     · intro x hx
       simp only [step] at hx
@@ -380,7 +398,7 @@ theorem step_origin (s : St) (op : Op) :
       simp only [step, Obs.dequeued] at hx
       rw [← hpre]; exact List.mem_append_left _ hx
   | dispatch =>
-    refine ⟨Nat.le_refl _, fun x hx => Or.inl hx, fun x hx => by cases hx, fun x hx => by cases hx, ?_⟩
+    refine ⟨Nat.le_refl _, fun x hx => Or.inl hx, fun x hx => absurd hx List.not_mem_nil, fun x hx => absurd hx List.not_mem_nil, ?_⟩
     intro x hx
     simp only [step, dispatch, Obs.fired] at hx
     right; exact (List.mem_filter.mp hx).1
@@ -398,21 +416,21 @@ theorem step_origin (s : St) (op : Op) :
       rcases List.mem_append.mp (List.mem_filter.mp hx).1 with hx | hx
       · right; exact hx
       · left; rw [← h1]; exact List.mem_append_left _ hx
-  | remaining => exact ⟨Nat.le_refl _, fun x hx => Or.inl hx, fun x hx => Or.inr hx, fun x hx => by cases hx, fun x hx => by cases hx⟩
-  | find f a => exact ⟨Nat.le_refl _, fun x hx => Or.inl hx, fun x hx => Or.inr hx, fun x hx => by cases hx, fun x hx => by cases hx⟩
+  | remaining => exact ⟨Nat.le_refl _, fun x hx => Or.inl hx, fun x hx => Or.inr hx, fun x hx => absurd hx List.not_mem_nil, fun x hx => absurd hx List.not_mem_nil⟩
+  | find f a => exact ⟨Nat.le_refl _, fun x hx => Or.inl hx, fun x hx => Or.inr hx, fun x hx => absurd hx List.not_mem_nil, fun x hx => absurd hx List.not_mem_nil⟩
   | invalidate a =>
-    refine ⟨?_, ?_, ?_, fun x hx => by cases hx, fun x hx => by cases hx⟩
+    refine ⟨?_, ?_, ?_, fun x hx => absurd hx List.not_mem_nil, fun x hx => absurd hx List.not_mem_nil⟩
     · simp only [step, invalidate]; split <;> exact Nat.le_refl _
     · intro x hx; left; simp only [step, invalidate] at hx; split at hx <;> exact hx
     · intro x hx; right; simp only [step, invalidate] at hx; split at hx <;> exact hx
-  | pending => exact ⟨Nat.le_refl _, fun x hx => Or.inl hx, fun x hx => Or.inr hx, fun x hx => by cases hx, fun x hx => by cases hx⟩
+  | pending => exact ⟨Nat.le_refl _, fun x hx => Or.inl hx, fun x hx => Or.inr hx, fun x hx => absurd hx List.not_mem_nil, fun x hx => absurd hx List.not_mem_nil⟩
 
 /-- Whatever a later history dequeues or fires was scheduled or queued at its start, or carries a fresh id. -/
 theorem later_origin (s : St) (ops : List Op) :
     (∀ x ∈ dequeuedIn s ops, x ∈ s.tasks ∨ s.nextId ≤ x.id) ∧
     (∀ x ∈ firedIn s ops, x ∈ s.tasks ∨ x ∈ s.queue ∨ s.nextId ≤ x.id) := by
   induction ops generalizing s with
-  | nil => exact ⟨fun x hx => by cases hx, fun x hx => by cases hx⟩
+  | nil => exact ⟨fun x hx => absurd hx List.not_mem_nil, fun x hx => absurd hx List.not_mem_nil⟩
   | cons op ops ih =>
     obtain ⟨hn, ht, hq, hd, hf⟩ := step_origin s op
     obtain ⟨ihd, ihf⟩ := ih (step s op).1
